@@ -368,3 +368,138 @@ pub fn lir_sources(heap: &Heap, src: &lir::Sources) -> String {
     list(&src.functions, |f| cx.function(f))
   )
 }
+
+// ---------------------------------------------------------------------------------------- HIR
+
+use samlang_ast::hir;
+
+pub struct HirCx<'a> {
+  pub heap: &'a Heap,
+}
+
+impl<'a> HirCx<'a> {
+  /// function names use the MIR encoding (a leading underscore) so that builtins and entry points carry the same
+  /// name in every IR
+  fn fname(&self, n: &hir::FunctionName) -> String {
+    json_str(&format!("_{}", n.pretty_print(self.heap)))
+  }
+  fn ty(&self, t: &hir::Type) -> String {
+    match t {
+      hir::Type::Int32 => "\"int\"".to_string(),
+      hir::Type::Int31 => "\"i31\"".to_string(),
+      hir::Type::Id(id) => format!("{{\"id\":{}}}", json_str(&id.pretty_print(self.heap))),
+    }
+  }
+  fn expr(&self, e: &hir::Expression) -> String {
+    match e {
+      hir::Expression::IntLiteral(i) => format!("{{\"i\":{}}}", i),
+      hir::Expression::Int31Zero => "{\"i31\":0}".to_string(),
+      hir::Expression::StringName(n) => format!("{{\"s\":{}}}", s(n, self.heap)),
+      hir::Expression::Variable(v) => format!("{{\"v\":{},\"t\":{}}}", s(&v.name, self.heap), self.ty(&v.type_)),
+    }
+  }
+  fn stmts(&self, ss: &[hir::Statement]) -> String {
+    list(ss, |x| self.stmt(x))
+  }
+  fn fas(&self, fas: &[(PStr, hir::Type, hir::Expression, hir::Expression)]) -> String {
+    list(fas, |(n, t, e1, e2)| {
+      format!("{{\"n\":{},\"t\":{},\"e1\":{},\"e2\":{}}}", s(n, self.heap), self.ty(t), self.expr(e1), self.expr(e2))
+    })
+  }
+  fn stmt(&self, st: &hir::Statement) -> String {
+    let h = self.heap;
+    match st {
+      hir::Statement::Not { name, operand } => format!("{{\"k\":\"not\",\"n\":{},\"e\":{}}}", s(name, h), self.expr(operand)),
+      hir::Statement::Binary { name, operator, e1, e2 } => format!(
+        "{{\"k\":\"bin\",\"n\":{},\"op\":\"{}\",\"e1\":{},\"e2\":{}}}",
+        s(name, h),
+        op_name(*operator),
+        self.expr(e1),
+        self.expr(e2)
+      ),
+      hir::Statement::IndexedAccess { name, type_, pointer_expression, index } => format!(
+        "{{\"k\":\"idx\",\"n\":{},\"t\":{},\"e\":{},\"i\":{}}}",
+        s(name, h),
+        self.ty(type_),
+        self.expr(pointer_expression),
+        index
+      ),
+      hir::Statement::Call { callee, arguments, return_type, return_collector } => {
+        let f = match callee {
+          hir::Callee::FunctionName(f) => format!("{{\"fn\":{}}}", self.fname(&f.name)),
+          hir::Callee::Variable(v) => format!("{{\"var\":{{\"v\":{},\"t\":{}}}}}", s(&v.name, h), self.ty(&v.type_)),
+        };
+        format!(
+          "{{\"k\":\"call\",\"f\":{},\"args\":{},\"rt\":{},\"rc\":{}}}",
+          f,
+          list(arguments, |x| self.expr(x)),
+          self.ty(return_type),
+          return_collector.as_ref().map(|c| s(c, h)).unwrap_or("null".to_string())
+        )
+      }
+      hir::Statement::ConditionalDestructure { test_expr, tag, bindings, s1, s2, final_assignments } => format!(
+        "{{\"k\":\"cdes\",\"e\":{},\"tag\":{},\"b\":{},\"s1\":{},\"s2\":{},\"fa\":{}}}",
+        self.expr(test_expr),
+        tag,
+        list(bindings, |b| match b {
+          Some((n, t)) => format!("{{\"n\":{},\"t\":{}}}", s(n, h), self.ty(t)),
+          None => "null".to_string(),
+        }),
+        self.stmts(s1),
+        self.stmts(s2),
+        self.fas(final_assignments)
+      ),
+      hir::Statement::IfElse { condition, s1, s2, final_assignments } => format!(
+        "{{\"k\":\"if\",\"c\":{},\"s1\":{},\"s2\":{},\"fa\":{}}}",
+        self.expr(condition),
+        self.stmts(s1),
+        self.stmts(s2),
+        self.fas(final_assignments)
+      ),
+      hir::Statement::LateInitDeclaration { name, type_ } => {
+        format!("{{\"k\":\"ldecl\",\"n\":{},\"t\":{}}}", s(name, h), self.ty(type_))
+      }
+      hir::Statement::LateInitAssignment { name, assigned_expression } => {
+        format!("{{\"k\":\"lassign\",\"n\":{},\"e\":{}}}", s(name, h), self.expr(assigned_expression))
+      }
+      hir::Statement::StructInit { struct_variable_name, type_, expression_list } => format!(
+        "{{\"k\":\"struct\",\"n\":{},\"t\":{},\"es\":{}}}",
+        s(struct_variable_name, h),
+        json_str(&type_.pretty_print(h)),
+        list(expression_list, |x| self.expr(x))
+      ),
+      hir::Statement::EnumInit { enum_variable_name, enum_type, tag, associated_data_list } => format!(
+        "{{\"k\":\"enum\",\"n\":{},\"t\":{},\"tag\":{},\"es\":{}}}",
+        s(enum_variable_name, h),
+        json_str(&enum_type.pretty_print(h)),
+        tag,
+        list(associated_data_list, |x| self.expr(x))
+      ),
+      hir::Statement::ClosureInit { closure_variable_name, closure_type, function_name, context } => format!(
+        "{{\"k\":\"closure\",\"n\":{},\"t\":{},\"fn\":{},\"ctx\":{}}}",
+        s(closure_variable_name, h),
+        json_str(&closure_type.pretty_print(h)),
+        self.fname(&function_name.name),
+        self.expr(context)
+      ),
+    }
+  }
+}
+
+pub fn hir_sources(heap: &Heap, src: &hir::Sources) -> String {
+  let cx = HirCx { heap };
+  format!(
+    "{{\"ir\":\"hir\",\"globals\":{},\"types\":[],\"mains\":{},\"functions\":{}}}",
+    list(&src.global_variables, |g| s(&g.0, heap)),
+    list(&src.main_function_names, |n| cx.fname(n)),
+    list(&src.functions, |f| format!(
+      "{{\"name\":{},\"params\":{},\"ptypes\":{},\"ret\":{},\"body\":{},\"retval\":{}}}",
+      cx.fname(&f.name),
+      list(&f.parameters, |p| s(p, heap)),
+      list(&f.type_.argument_types, |t| cx.ty(t)),
+      cx.ty(&f.type_.return_type),
+      cx.stmts(&f.body),
+      cx.expr(&f.return_value)
+    ))
+  )
+}
